@@ -2,11 +2,11 @@
 # confirm_mut.sh <worktree> <demo.py>   — confirm a seeded change: demo passes on /repo, fails on the
 # worktree, and the pinned 177 tests still pass in the worktree.
 wt=$1; demo=$2
-echo "== demo on unchanged /repo"; (cd /repo && PYTHONPATH=/repo /venv/bin/python $demo >/tmp/cm_a.log 2>&1; echo "exit=$?"; tail -2 /tmp/cm_a.log)
-echo "== demo on changed tree $wt"; (cd $wt && PYTHONPATH=$wt /venv/bin/python $demo >/tmp/cm_b.log 2>&1; echo "exit=$?"; tail -2 /tmp/cm_b.log)
+echo "== demo on unchanged /repo"; (cd /repo && PYTHONPATH=/repo /venv/bin/python $demo >/tmp/cm_a_$$.log 2>&1; echo "exit=$?"; tail -2 /tmp/cm_a_$$.log)
+echo "== demo on changed tree $wt"; (cd $wt && PYTHONPATH=$wt /venv/bin/python $demo >/tmp/cm_b_$$.log 2>&1; echo "exit=$?"; tail -2 /tmp/cm_b_$$.log)
 echo "== pinned suite on changed tree"
 x=/tmp/cm_junit_$$.xml
-(cd $wt && /venv/bin/python -m pytest -q -p no:cacheprovider --timeout=900 --continue-on-collection-errors --junitxml=$x >/tmp/cm_t.log 2>&1; tail -1 /tmp/cm_t.log)
+(cd $wt && /venv/bin/python -m pytest -q -p no:cacheprovider --timeout=900 --continue-on-collection-errors --junitxml=$x >/tmp/cm_t_$$.log 2>&1; tail -1 /tmp/cm_t_$$.log)
 /venv/bin/python - $x <<'PY'
 import sys, json, xml.etree.ElementTree as ET
 base=set(json.load(open('/root/.vp/BASELINE.json'))['stable_pass'])
